@@ -158,15 +158,18 @@ where
     /// Set memory permissions for the page at the given address
     pub fn set_permissions(&mut self, address: u64, len: u64, permissions: MemoryPermissions) {
         let mut page_address = address & PAGE_MASK;
-        let total_length = len + (address - page_address);
-        while page_address < total_length {
+        let end_address = address.saturating_add(len);
+        while page_address < end_address {
             RC::make_mut(
                 self.pages
                     .entry(page_address)
                     .or_insert_with(|| RC::new(Page::new(PAGE_SIZE))),
             )
             .set_permissions(Some(permissions));
-            page_address += PAGE_SIZE as u64;
+            page_address = match page_address.checked_add(PAGE_SIZE as u64) {
+                Some(next_page_address) => next_page_address,
+                None => break,
+            };
         }
     }
 
